@@ -239,7 +239,7 @@ def cfg(tier, seed):
         out.append(dict(d=3, N=4, F=2, K=2, types=[2, 1, 1, 2], box=1, qvec=q3 + [[0, 1, -1], [2, 0, 0]]))
         out.append(dict(d=3, N=5, F=2, K=4, types=[1, 2, 3, 4, 1], box=0, qvec=q3[:3]))
         out.append(dict(d=2, N=7, F=2, K=6, types=[1, 2, 3, 4, 5, 6, 3], box=1, qvec=q2[:2]))
-        out.append(dict(d=3, N=3, F=1, K=1, types=[1, 1, 1], box=2, qrange="sym", onlypositive=False))
+        out.append(dict(d=3, N=3, F=1, K=1, types=[1, 1, 1], box=0, qrange="sym", onlypositive=False))
     return out
 
 
